@@ -473,11 +473,17 @@ def _identity_valid(ctx, name, snap):
 
 def check_c07(ctx):
     rank = ctx.rankmap()
+    # an instance that lost its placement before the queue was run (server
+    # down past retention, blacklist, invalidated identity) and is placed
+    # again - possibly on the same server - gained a placement in this cycle
+    pre_removed = {ev[1] for ev in ctx.rec.events
+                   if ev[0] == 'remove' and ev[3] == 'pre'}
     gained = set()
     for name, post in ctx.post.items():
         pre = ctx.pre.get(name)
         before = pre.server if pre is not None else None
-        if post.server is not None and post.server != before:
+        if post.server is not None and (post.server != before or
+                                        name in pre_removed):
             gained.add(name)
     for label, names in ctx.rec.queues:
         someone_gained = False
